@@ -26,6 +26,16 @@ theorem udp_unpack_state_independent (t : Model.Ch10UDP.State) (buf : Bytes)
     Model.Ch10UDP.unpack t buf = Model.Ch10UDP.unpack Model.Ch10UDP.fresh buf :=
   Lemmas.Ch10UDP.udp_unpack_state_independent t buf h
 
+/-- non-vacuity: an object left in format 3 with stale per-format fields decodes the encoding of a format-1
+    packet (24-bit sequence, three payload bytes) successfully -/
+example :
+    let a : Model.Ch10UDP.State := { Model.Ch10UDP.fresh with sequence := 0xABCDEF, payload := [1, 2, 3] }
+    let t : Model.Ch10UDP.State := { Model.Ch10UDP.fresh with
+      version := 3, sourceid_len := 3, sourceid := 0x5A5, offset_pkt_start := some 12, packetsize := some 9, payload := [7, 7] }
+    ∃ b, (Model.Ch10UDP.pack a).2 = .ok b ∧ b.length = 7 ∧ (Model.Ch10UDP.unpack t b).2 = .ok () ∧
+      (Model.Ch10UDP.unpack t b).1.offset_pkt_start = none :=
+  ⟨_, rfl, rfl, rfl, rfl⟩
+
 /-! ### Chapter11 (and the deprecated subclass Chapter10) -/
 /-- the only fields `pack` writes are `filler`, `packetlen`, `datalen` -/
 theorem ch11_pack_preserves_fields (s : Model.Ch11.State) :
@@ -55,6 +65,19 @@ theorem ch11_unpack_state_independent (t : Model.Ch11.State) (buf : Bytes)
     Model.Ch11.unpack t buf =
       Model.Ch11.unpack { Model.Ch11.fresh with data_checksum_size := t.data_checksum_size } buf :=
   Lemmas.Ch11.ch11_unpack_state_independent t buf h
+
+/-- non-vacuity: an object that decoded a packet with secondary header before (PTP time, filler, flags still
+    set) decodes the encoding of a 5-byte-payload packet without secondary header successfully -/
+example :
+    let a : Model.Ch11.State := { Model.Ch11.fresh with
+      channelID := 0x1234, sequence := 3, packetflag := 0x35, datatype := 0x50, relativetimecounter := 0xFFFFFFFFFFFF,
+      payload := [1, 2, 3, 4, 5] }
+    let t : Model.Ch11.State := { Model.Ch11.fresh with
+      channelID := 7, packetflag := 0xF7, has_secondary_header := true, ts_source := Gen.Ch11.TS_IEEE1558,
+      ptptime := ⟨1700000000, 999999999⟩, payload := [9, 8, 7], filler := [0xFF] }
+    ∃ b, (Model.Ch11.pack a).2 = .ok b ∧ b.length = 32 ∧ (Model.Ch11.unpack t b).2 = .ok () ∧
+      (Model.Ch11.unpack t b).1.has_secondary_header = false :=
+  ⟨_, rfl, rfl, rfl, rfl⟩
 
 /-! ### PTPTime, RTCTime
   In the model `PTP.unpack : Bytes → R PTP` and `rtcUnpack : Bytes → R Nat` take no state argument and
